@@ -98,6 +98,10 @@ def run(chk):
     success_protocol(chk, repo, ms, f)
     totality(chk, repo)
     kernel_extents(chk, repo)
+    # ---- whole-driver symbolic execution: bounds of every array access during a complete solve; inputs restored on normal and failing exits
+    from . import solver_whole
+    solver_whole.assembled(chk, repo, None, None, None, rule_bounds='R06.2')
+    solver_whole.inputs_intact(chk, repo, 'R06.1')
     status_discipline(chk, repo, ms, f)
     length_guards(chk, repo, ms)
     chk.floor('R06.5', 2); chk.floor('R06.6', 4)
